@@ -168,6 +168,27 @@ impl Acc {
             Status::Engine(e) => Some(format!("engine failure: {e}")),
             _ => None,
         };
+        if let Status::Livelock(t) = &r.status {
+            // a spinning task is a verdict for every job-level property: the job never ends
+            if !self.rep.violations.iter().any(|v| v.sig == "livelock") {
+                self.rep.violations.push(Violation {
+                    scenario: s.name.clone(),
+                    order: order_name(order).to_string(),
+                    // default choices (0) at the end need not be recorded: a replay continues
+                    // with the defaults after its prefix
+                    choices: {
+                        let mut t = r.trace.clone();
+                        while matches!(t.last(), Some(p) if p.c == 0) {
+                            t.pop();
+                        }
+                        t
+                    },
+                    sig: "livelock".to_string(),
+                    message: format!("{}: the job never terminates - {t}", s.descr),
+                });
+            }
+            return vec![];
+        }
         if let Some(m) = machinery {
             self.rep.machinery_errors.push(format!(
                 "{} [{}] {}: {}",
